@@ -274,6 +274,8 @@ def compare(it, con, case_name, out_b, out_s, st_b, st_s, args_b, args_s):
     if "self" in con.compare or "args" in con.compare:
         for i, (a, b) in enumerate(zip(args_b, args_s)):
             is_self = isinstance(a, VObj) and a.cls in it.eng.classes and i == 0
+            if is_self and q.endswith(".__init__") and out_b[0] == "raise":
+                continue     # the half-built instance of a failed constructor is discarded
             clause = "self" if is_self else "args"
             if clause not in con.compare:
                 continue
